@@ -88,8 +88,30 @@ func (c *ClusterInfo) snapshotQueueResourceUsage() (*queue_info.ClusterUsage, er
 // UpdateQueueHierarchy iterates over a map containing multiple levels of queue hierarchies, and updates queues with
 // child queues where relevant
 func UpdateQueueHierarchy(queues map[common_info.QueueID]*queue_info.QueueInfo) {
+	removeQueueCycles(queues)
 	updateQueueChildren(queues)
 	cleanQueueOrphans(queues)
+}
+
+// removeQueueCycles deletes every queue whose chain of parents never reaches a top-level queue (a parent
+// cycle or a queue that is its own parent). Queue specs are not validated against cycles, and every
+// walk up the hierarchy relies on the chain being finite.
+func removeQueueCycles(queues map[common_info.QueueID]*queue_info.QueueInfo) {
+	var cyclicQueues []common_info.QueueID
+	for queueId := range queues {
+		steps := 0
+		for queue, found := queues[queueId]; found && queue.ParentQueue != ""; queue, found = queues[queue.ParentQueue] {
+			steps++
+			if steps > len(queues) {
+				cyclicQueues = append(cyclicQueues, queueId)
+				break
+			}
+		}
+	}
+	for _, queueId := range cyclicQueues {
+		log.InfraLogger.V(2).Warnf("Found queue %s with a cycle in its parent chain, deleting it", queueId)
+		delete(queues, queueId)
+	}
 }
 
 func updateQueueChildren(queues map[common_info.QueueID]*queue_info.QueueInfo) {
